@@ -6,8 +6,8 @@ CHECKS = {
     text='Every generated count (tens of thousands per quick run over all 11 rule names and the arithmetic/option matrix, '
          'weighted towards degenerate, withdrawn/write-in and sure-loser profiles) is executed for real under a CPU budget; '
          'the oracle checks seats filled = min(seats, electable), every eligible candidate decided exactly once, withdrawn '
-         'candidates inert at every snapshot, and that no exception escapes. Sampling, not enumeration: holds on what was run.',
-    note='Trusts the generator to produce valid profiles (parser-rejected ones are counted, not judged); budget overruns '
+         'candidates inert at every snapshot, and that no exception escapes. A quarter of the cases hand the configuration over another way (ballot-file [droop] options, split file/caller, an Options object, no options argument), a tenth come from the boundary catalogue (elections in which a rule compared two exactly equal values). Sampling, not enumeration: holds on what was run.',
+    note='The electable set is read from the ballot file text, not from the package\'s reading of it. Trusts the generator to produce valid profiles (parser-rejected ones are counted, not judged); budget overruns '
          'are re-run alone with 20x budget before being reported; meek/warren+rational overruns are not explored by the property\'s own carve-out.'),
  'C02': dict(level='exploration', ref='DESIGN.md 3/C02',
     technique='runtime monitoring: conservation invariant evaluated on raw (scaled-integer / Fraction) values at every recorded action via an outside hook on ElectionRecord.action',
@@ -50,79 +50,80 @@ CHECKS = {
     text='At every fresh snapshot (meek/warren: iterate and end; meek-prf: begin/end and elect/tie/defeat before any exclusion of the round) of every '
          'generated Meek-family count: votes + residual == ballots on raw values, nothing negative, keep factor 1 / 0 / in (0,1] by status; every '
          'omega exit has surplus <= omega (meek-prf < omega) or a logged stable state; exclusions only after an end of iteration. Includes equal-rank '
-         'ballots, more seats than supported candidates, fixed p3-12, guarded grids, tiny rational.',
+         'ballots (quota-creep recipe), more seats than supported candidates, rounds needing 300-2000 distributions (20-126 seats), fixed p3-12, guarded grids, tiny rational.',
     note='Known finding C08/meek-guarded-kf-underflow (elected keep factor truncates to exactly 0 under guarded arithmetic with guard digits; classifier requires raw kf == 0, guarded, guard>0, parametric meek/warren).'),
  'C18': dict(level='exploration', ref='DESIGN.md 3/C18',
     technique='runtime monitoring: offline checker of the recorded history against live snapshots and announcement rules, plus tolerant parsers cross-checking report, dump and JSON against the record',
     text='For every generated count: record actions == observed hook events (raw values), begins with the start of the count and ends with end, each elect/defeat names a '
          'candidate whose status (or pending flag) changes there and every status change is so announced, end == E.elected/E.defeated; dump rows/columns and every field, '
          'json.loads(json()) == stringified record (millions of leaves per run), report blocks (status lines and totals recomputed from raw tallies) all agree.',
-    note='Single-value printing is C14\'s; names are unique and free of ", " / ": "; QPQ restart applied virtually. Report parsed tolerantly by labels, not byte-compared.'),
+    note='Single-value printing is C14\'s; candidates are told apart by id (a quarter of the cases use names that read like the package\'s own words or format directives, half of those with namesakes; names are free of ", " / ": " / brackets, which the tie-message parsing relies on); every candidate holding a status must have dump columns; QPQ restart applied virtually. Report parsed tolerantly by labels, not byte-compared.'),
  'C12': dict(level='exploration', ref='DESIGN.md 3/C12',
     technique='runtime contracts (postconditions against a fractions.Fraction shadow) wrapped from outside around every public operator and classmethod of Fixed and Rational; exhaustive small grid + random operands + contracts left on during real counts',
     text='Every call of +,-,*,/,//,__div__,mul,div,muldiv (both roundings),neg,pos,abs,bool,six comparisons,min on Fixed and of the arithmetic operators '
          '(incl. reflected), mul/div/muldiv on Rational is checked against exact rational arithmetic: exactness, floor rounding, +1 ulp only when inexact and '
-         'round=up, result type, operands not mutated. The grid [-60,60]^2 (+boundaries) and [-13,13]^3 x precision 0..4 is swept completely; random operands to 10^40, '
-         'precision to 30; tens of millions of in-situ evaluations inside real counts per quick run.',
+         'round=up, result type, operands not mutated. The grid [-60,60]^2 (+boundaries) and [-13,13]^3 x precision 0..4 is swept completely; random operands to 10^40 (Rational: also operands closer than a double resolves or beyond its range; min and the six comparisons decided by integer cross-multiplication), '
+         'precision to 30; an exception on valid operands is a violation; tens of millions of in-situ evaluations inside real counts per quick run.',
     note='Trusted shadow: Python ints and fractions.Fraction. Zero divisors not judged. Small grid exhaustive; everything else sampled.'),
  'C13': dict(level='exploration', ref='DESIGN.md 3/C13',
-    technique='runtime contracts on the Guarded comparison operators (tolerance law) + relational monitors: Guarded(guard 0) vs Fixed per operation and per count, guarded vs rational counts under the clean-statistics premise',
+    technique='runtime contracts on the Guarded comparison operators (tolerance law; comparison statistics account for every comparison) + relational monitors: Guarded(guard 0) vs Fixed per operation and per count, guarded vs rational counts under the clean-statistics premise',
     text='(a) every Guarded comparison evaluated is checked against the tolerance law; the boundary differences {0,1,geps-1,geps,geps+1,2geps} are swept for all p,g in 0..6. '
          '(b) Guarded(p,0) and Fixed(p) give identical raw results, strings and comparisons on grids/random operands, and identical histories and dumps for wigm/meek/warren counts. '
-         '(c) thousands of guarded/rational count pairs: under the premise the action sequences, statuses and every tally/quota (within 10^-p) must agree.',
-    note='(c) uses a fixed numeric reading of "no comparison near the tolerance": maxDiff*1e3 <= geps <= minDiff/1e3 and 2*ulp*ballots*actions <= geps/1e3; pairs outside are not evaluated. Rational Meek only on tiny profiles.'),
+         '(c) thousands of guarded/rational count pairs (15% built to hold a difference just inside the tolerance): under the premise the action sequences, statuses and every tally/quota (within 10^-p) must agree. '
+         '(d) right after every comparison maxDiff/minDiff must cover it; each operator is probed alone after a reset, in both operand orders.',
+    note='(d) is a lemma under the third clause (the statistics are what their definition says), keyed guarded:statistics-miss-a-comparison. (c) uses a fixed numeric reading of "no comparison near the tolerance": maxDiff*1e3 <= geps <= minDiff/1e3 and 2*ulp*ballots*actions <= geps/1e3; pairs outside are not evaluated. Rational Meek only on tiny profiles.'),
  'C14': dict(level='exploration', ref='DESIGN.md 3/C14',
     technique='runtime contract on __str__ of Fixed, Guarded and Rational (half-up of the exact value, digit count, underscore, sign, value unchanged), swept around carries and left installed while real counts are rendered',
     text='Every str() of a value object is checked against the exact value rounded half-up at the display digits. All raw values in [-1300,1300] and within 3 of every carry/half-unit '
-         'boundary are swept for precision, guard, display in 0..5 (complete for that sub-space); random magnitudes to 10^40; rational ties; every figure printed by report/dump/json of thousands of counts goes through the contract.',
+         'boundary are swept for precision, guard, display in 0..5 (complete for that sub-space); random magnitudes to 10^40 and exact ties +-1 at up to 60 dropped digits; rational ties; every figure printed by report/dump/json of thousands of counts goes through the contract; after a count of another arithmetic class the previous count is rendered again and must read exactly as before.',
     note='Known finding C14/guarded-p0-underscore. Negative exact ties: half-up and half-away-from-zero both accepted. Whether renderings use str() of the recorded value is checked by C18.'),
  'C15': dict(level='exploration', ref='DESIGN.md 3/C15',
     technique='runtime monitoring, round-trip oracle: generated election structure -> adversarial well-formed BLT rendering -> real parser -> every public attribute compared with the structure; invariants of an accepted profile',
     text='~180k feature-rich renderings per quick run (nicknames as references, [tie], -n/[withdrawn]/both, [undeclared], [droop], ballot ids, empty and all-withdrawn '
          'ballots, equal ranks with withdrawn members, names with spaces/#/comment markers/non-ASCII/empty, source/comment, junk, nested and # comments incl. quoted words '
-         'inside comments and comments inside option lists, random layout, BOM via path=, 255/256/257 candidates) are parsed by the real ElectionProfile and compared attribute by attribute.',
+         'inside comments and comments inside option lists, random layout, BOM via path=, 255/256/257/300 candidates with [tie] and nicknames, ballot ids differing only in blanks, number-like nicknames such as 0_3 and +2, several [undeclared] items) are parsed by the real ElectionProfile and compared attribute by attribute.',
     note='Well-formedness is the grammar of DESIGN Appendix B; the renderer never emits forms outside it. Expectation model (withdrawn removal, dropped ballots, equal-rank demotion) is ~40 lines in vf/blt.py.'),
  'C16': dict(level='exploration', ref='DESIGN.md 3/C16',
     technique='runtime monitoring with hostile inputs: complete prefix / single-token-mutation sets of seed files, token soups and arbitrary unicode fed to the real parser and the 11 constructors; outcome oracle {valid profile, ElectionProfileError}; CPU watchdog',
     text='~1.6M texts per quick run: every token/character prefix and every single-token delete/duplicate/swap/replace/insert (70-token hostile alphabet) of 5 fixed and ~150 generated seed files '
-         '(complete per seed), plus soups, unicode and extreme headers. Any exception other than ElectionProfileError, any accepted profile breaking the invariants of a valid election, any '
+         '(complete per seed), plus soups, unicode and extreme headers (candidate counts and ids around 2^32, 2^64, 10^40). Any exception other than ElectionProfileError, any accepted profile breaking the invariants of a valid election, any '
          'constructor failure on an accepted option-free profile, or a confirmed hang is a violation.',
     note='Mutation sets are exhaustive per seed file only; the space of all strings is sampled. Budget overruns are re-run alone with 20x budget before being reported.'),
  'C10': dict(level='exploration', ref='DESIGN.md 3/C10',
     technique='relational runtime monitor over two real executions of the same ballots in two presentations (permuted lines, split/merged multipliers, random layout and comments, nicknames); compared on traced raw snapshots, dump, report, json',
     text='~15k pairs per quick run over all rules and arithmetics (equal-rank profiles under meek/warren included): the variant must produce the same action list with the same raw tallies, '
-         'the same dump and report, and the same JSON apart from cdict.nick.',
+         'the same dump and report, and the same JSON apart from cdict.nick. Line ends include form feed, NEL and U+2028; nicknames include number-like ones.',
     note='Known finding C10/guarded-stats-depend-on-multipliers (classifier: only the maxDiff/minDiff lines / arithmetic_report differ, arithmetic guarded, variant split or merged multipliers).'),
  'C11': dict(level='exploration', ref='DESIGN.md 3/C11',
     technique='relational runtime monitor over two real executions: a profile vs its renumbering by a random permutation (winners and final tallies by name), and withdrawn-marked vs candidate-deleted profiles (full traced record by name)',
-    text='~28k renumbered pairs and ~28k withdrawn/deleted pairs per quick run over all rules and arithmetics; withdrawn sets biased to candidates holding first preferences; equal-rank profiles included for meek/warren.',
+    text='~28k renumbered pairs and ~28k withdrawn/deleted pairs per quick run over all rules and arithmetics; withdrawn sets biased to candidates holding first preferences; equal-rank profiles included for meek/warren; 15% of the pairs build both elections before counting either.',
     note='Renumbered pairs whose guarded statistics show a comparison within 10^3 of the tolerance are not evaluated (non-transitive comparison).'),
  'C17': dict(level='exploration', ref='DESIGN.md 3/C17',
     technique='runtime monitoring: complete enumeration of {absent,v1,v2} x {file layer, caller layer} per option name and rule against a precedence table, recorded layers, observable arithmetic/rule attributes and report header; relational monitor for statutory counts under junk options',
     text='All 891 layer assignments (11 rules x 9 option names x 9 layer combinations, file layer parsed from real [droop ...] text) are checked for effective value, recorded layers, '
-         'observable effect and the Unused/Overridden header lines; ~17k statutory count pairs with junk options from caller / file / both must be identical in actions, raw snapshots, dump and winners.',
+         'observable effect and the Unused/Overridden header lines (a third of them with the file layer written as two [droop] items; Options objects built in one go or piecemeal); ~17k statutory count pairs with junk options from caller / file / both must be identical in actions, raw snapshots, dump and winners.',
     note='The declared/forced option tables are transcribed from the rules; assignments refused with UsageError are outside the claim. Enumeration complete for the stated value sets only.'),
  'C19': dict(level='fault_enumeration', ref='DESIGN.md 3/C19',
     technique='fault injection by sys.monitoring: KeyboardInterrupt raised from a LINE callback at the k-th executed line of package code during Election.count(), for every k of each swept count; renderers and prefix property checked after each',
     text='For each swept (profile, rule, options) - at least one per rule name in the quick tier - every line event of the count (2-5 thousand per count) is used once as the interruption '
          'point (complete enumeration for that count, ~48k injections per quick run): report(True), dump(True) and json(True) must succeed, carry the marker exactly once and the recorded '
-         'actions must be value-equal to a prefix of the uninterrupted record. A sample is driven through Droop.main with all report/dump/json combinations.',
+         'actions must be value-equal to a prefix of the uninterrupted record. A sample is driven through Droop.main with all report/dump/json combinations. A third of the swept elections carry hostile candidate names (the marker\'s own word, brace and percent directives); the marker is judged on the structure of the record.',
     note='Interruption points are statement starts in files under droop/ (pure Python: no finer grain is observable). Enumeration is exhaustive per swept count, sampled over counts.'),
  'C20': dict(level='exploration', ref='DESIGN.md 3/C20',
     technique='relational runtime monitor over process histories: byte comparison of report+dump+json of a target election after random in-process histories of other elections against a reference rendered in a fresh subprocess; recount of the same profile object',
     text='~900 targets x 6 histories per quick run (1-12 earlier elections of all rules/arithmetics, biased to end on the target\'s arithmetic class with different precision/guard/display, '
-         'incl. equal precision+guard sums with different splits, guard 0, display above precision): renderings must equal the fresh-process reference byte for byte; the same profile object recounted must reproduce itself.',
+         'incl. equal precision+guard sums with different splits, guard 0, display above precision): renderings must equal the fresh-process reference byte for byte (a target that ends in an error there must end in the same kind of error); a quarter of all elections are configured in the ballot file only and built as Election(profile); 8% of targets run at 4400-5200 digits; the same profile object recounted must reproduce itself.',
     note='Scope as in the property: each election is constructed, counted and rendered before the next is constructed.'),
  'C05': dict(level='exploration', ref='DESIGN.md 3/C05',
     technique='runtime monitoring: offline oracle over (ballots, winners) of completed real counts - solid-coalition support counted conservatively for every prefix set against k x initial quota + the stated allowance; one-seat majority clause',
     text='After each completed count every candidate set with solid support (every set of first-|S| preferences of some ballot) and every k is checked: support > k*q0 + 2*ulp*ballots*candidates '
          'implies at least k members elected; one seat: a first-preference majority wins. Workload built around coalitions sitting at k quotas -1..+3 ballots (also split evenly over their members), '
-         'steered to zero-vote batches, stable-state exclusions and single defeats; ~130k binding obligations, ~55k within 2 ballots of the threshold per quick run.',
+         'steered to zero-vote batches, stable-state exclusions and single defeats; one case in six is Meek/Warren configured only in part (defaults fill the rest); ~130k binding obligations, ~55k within 2 ballots of the threshold per quick run.',
     note='Known finding C05/warren-premature-stable-state (classifier: rule warren and an "Iterate (stable)" action in the history). mpls only without undeclared write-ins. Strict rankings only.'),
  'C03': dict(level='exploration', ref='DESIGN.md 3/C03 and Appendix A',
     technique='runtime monitoring, history + executable model: the recorded history of each real count, normalised by state diffs, is compared step by step and digit by digit with the history produced by an executable specification written from the rule text; recorded tie-breaks are checked against what the text permits',
     text='~29k statutory counts per quick run (8 rule names; ~210k steps, ~12k ties): step kinds, who, rounds, every raw tally, the non-transferable total, quota, keep factors (PRF Meek), '
          'quotients (QPQ) and winners must equal the specification\'s. The strict text is tried first, then the documented switch subsets; histories needing a switch print the matching known finding, '
-         'histories nothing explains are violations. wigm with arithmetic=fixed precision=4 must reproduce wigm-prf (actions, raw snapshots, dump).',
+         'histories nothing explains are violations. wigm with arithmetic=fixed precision=4 must reproduce wigm-prf (actions, raw snapshots, dump; a quarter of the pairs on exact quota hits, 15% from the boundary catalogue).',
     note='Trusted base: six specifications (~100 lines each) in vf/models/specs.py and their adopted readings; seven known text deviations of the code (C03/text-deviation:*), each a named switch. QPQ counts with quotients within twice the tolerance are not evaluated.'),
 }
